@@ -116,12 +116,16 @@ type caseB struct {
 	Dir     bool   `json:"dir,omitempty"`             // the directory object dirobj/ (zero bytes) instead; size_idx only shaped the range
 	AccEnc  string `json:"accept_encoding,omitempty"` // Accept-Encoding sent with the request (objects with odd index are text/plain, index%4==2 application/json)
 	Proxy   bool   `json:"proxy,omitempty"`           // asked of a gateway with the s3 backend, which has the objects from a posix gateway behind it
+	MPU     bool   `json:"mpu,omitempty"`             // the object of that size that was completed from a multipart upload (no checksums stored with it)
+	SumMode bool   `json:"checksum_mode,omitempty"`   // x-amz-checksum-mode: ENABLED
+	IfRange string `json:"if_range,omitempty"`        // If-Range: "etag" (the object's), "other" (another entity tag), "past" / "future" (dates)
 }
 
 var (
 	eng    *gw.InProc
 	cl     *s3c.Client
 	bodies [][]byte
+	etags  = map[string]string{} // path -> ETag as the gateway announced it
 )
 
 func setup() error {
@@ -158,8 +162,32 @@ func fill(cl *s3c.Client, keep bool) error {
 		case i%4 == 2:
 			ct = []s3c.KV{{K: "Content-Type", V: "application/json"}}
 		}
-		if r := cl.MustCall("PUT", fmt.Sprintf("/rng/obj%d", i), nil, ct, b); !r.OK() {
+		r := cl.MustCall("PUT", fmt.Sprintf("/rng/obj%d", i), nil, ct, b)
+		if !r.OK() {
 			return fmt.Errorf("put object: %v", r)
+		}
+		if keep {
+			etags[fmt.Sprintf("/rng/obj%d", i)] = r.Header.Get("ETag")
+		}
+		// the same bytes once more, completed from a multipart upload without any checksum
+		mp := fmt.Sprintf("/rng/mpu%d", i)
+		ir := cl.MustCall("POST", mp, s3c.Q("uploads", ""), ct, nil)
+		var ini s3c.InitiateResult
+		if !ir.OK() || s3c.ParseXML(ir, &ini) != nil {
+			return fmt.Errorf("create multipart upload: %v", ir)
+		}
+		pr := cl.MustCall("PUT", mp, s3c.Q("partNumber", "1", "uploadId", ini.UploadId), nil, b)
+		if !pr.OK() {
+			return fmt.Errorf("upload part: %v", pr)
+		}
+		cr := cl.MustCall("POST", mp, s3c.Q("uploadId", ini.UploadId), nil, s3c.CompleteXML([]s3c.Part{{PartNumber: 1, ETag: s3c.ETag(pr.Header.Get("ETag"))}}))
+		if !cr.OK() || strings.Contains(string(cr.Body), "<Error>") {
+			return fmt.Errorf("complete multipart upload: %v", cr)
+		}
+		if keep {
+			if hr := cl.MustCall("HEAD", mp, nil, nil, nil); hr.OK() {
+				etags[mp] = hr.Header.Get("ETag")
+			}
 		}
 	}
 	if r := cl.MustCall("PUT", "/rng/dirobj/", nil, nil, nil); !r.OK() {
@@ -211,6 +239,9 @@ func runB(c caseB) error {
 	}
 	obj := bodies[c.SizeIdx]
 	path := fmt.Sprintf("/rng/obj%d", c.SizeIdx)
+	if c.MPU {
+		path = fmt.Sprintf("/rng/mpu%d", c.SizeIdx)
+	}
 	if c.Dir {
 		obj, path = nil, "/rng/dirobj/"
 	}
@@ -227,11 +258,29 @@ func runB(c caseB) error {
 		// what the client is willing to decode must not change which bytes the headers describe
 		h = append(h, s3c.KV{K: "Accept-Encoding", V: c.AccEnc})
 	}
+	if c.SumMode {
+		h = append(h, s3c.KV{K: "x-amz-checksum-mode", V: "ENABLED"})
+	}
+	switch c.IfRange {
+	case "etag":
+		if et := etags[path]; et != "" {
+			h = append(h, s3c.KV{K: "If-Range", V: et})
+		}
+	case "other":
+		h = append(h, s3c.KV{K: "If-Range", V: `"0123456789abcdef0123456789abcdef"`})
+	case "past":
+		h = append(h, s3c.KV{K: "If-Range", V: "Sat, 01 Jan 2000 00:00:00 GMT"})
+	case "future":
+		h = append(h, s3c.KV{K: "If-Range", V: "Fri, 01 Jan 2100 00:00:00 GMT"})
+	}
 	r, err := cl.Call(method, path, nil, h, nil)
 	if err != nil {
 		return fmt.Errorf("transport: %w", err)
 	}
 	pfx := fmt.Sprintf("%s size=%d Range=%q: ", method, size, c.Range)
+	if c.MPU || c.SumMode || c.IfRange != "" {
+		pfx = fmt.Sprintf("%s size=%d Range=%q (object from a multipart upload: %v, checksum mode: %v, If-Range: %q): ", method, size, c.Range, c.MPU, c.SumMode, c.IfRange)
+	}
 	if c.AccEnc != "" {
 		pfx = fmt.Sprintf("%s size=%d Range=%q Accept-Encoding=%q: ", method, size, c.Range, c.AccEnc)
 	}
@@ -289,8 +338,10 @@ func runB(c caseB) error {
 		return fmt.Errorf(pfx+"unexpected status %d %s", r.Status, r.Code())
 	}
 	acc := model.RangeAccept(size, c.Range)
-	if c.Head {
-		// HEAD may ignore Range altogether (whole-object headers) or honour it.
+	if c.Head || c.IfRange == "other" || c.IfRange == "past" || c.IfRange == "future" {
+		// HEAD may ignore Range altogether (whole-object headers) or honour it; an If-Range that may not name the
+		// stored entity allows the whole object (status 200 - with the whole object, checked above) as well as
+		// ignoring the header
 		acc = append(acc, model.RangeOutcome{Status: 200})
 	}
 	for _, a := range acc {
@@ -310,6 +361,9 @@ func TestC13B(t *testing.T) {
 		c := caseB{SizeIdx: idx, Range: rangeGen(sizes[idx]).Draw(t, "range"), Head: rapid.IntRange(0, 9).Draw(t, "head") == 0, Dir: rapid.IntRange(0, 11).Draw(t, "dir") == 0,
 			AccEnc: rapid.SampledFrom([]string{"", "", "", "gzip", "gzip, deflate, br", "identity", "deflate", "br", "*"}).Draw(t, "accept_encoding")}
 		c.Proxy = rapid.IntRange(0, 7).Draw(t, "proxy") == 0
+		c.MPU = !c.Dir && rapid.IntRange(0, 3).Draw(t, "mpu") == 0
+		c.SumMode = rapid.IntRange(0, 2).Draw(t, "checksum_mode") == 0
+		c.IfRange = rapid.SampledFrom([]string{"", "", "", "", "etag", "other", "past", "future"}).Draw(t, "if_range")
 		if strings.ContainsAny(c.Range, "\r\n\x00") {
 			c.Range = "bytes=0-0"
 		}
@@ -325,7 +379,16 @@ func TestC13B(t *testing.T) {
 		if c.Proxy {
 			m += ":proxy"
 		}
-		ev.Case(fmt.Sprintf("B|%d|%s|%v|%v|%s|%v", idx, c.Range, c.Head, c.Dir, c.AccEnc, c.Proxy), c.Range != "" && sizes[idx] > 0, "B:"+m+":"+cls)
+		if c.MPU {
+			m += ":mpu"
+		}
+		if c.SumMode {
+			m += ":sum"
+		}
+		if c.IfRange != "" {
+			m += ":if-range"
+		}
+		ev.Case(fmt.Sprintf("B|%d|%s|%v|%v|%s|%v|%v|%v|%s", idx, c.Range, c.Head, c.Dir, c.AccEnc, c.Proxy, c.MPU, c.SumMode, c.IfRange), c.Range != "" && sizes[idx] > 0, "B:"+m+":"+cls)
 		ev.Sample("B:"+cls, 1, c)
 		if err := runB(c); err != nil {
 			if strings.HasPrefix(err.Error(), "SETUP") {
